@@ -92,6 +92,7 @@ struct adapter {
         s.reset();
     }
     long size() { return (long) s->size(); }
+    long bucket_count() { return (long) s->bucket_count(); }
 
     result op( int t, long code, long k, long a, long b )
     {
